@@ -205,8 +205,9 @@ def get_Werner_eof(dim:int, alpha:np.ndarray|float):
     ind0 = a<0
     if np.any(ind0):
         a = a[ind0]
-        tmp0 = (1-np.sqrt(1-a*a))/2
-        ret[ind0] = -tmp0*np.log(tmp0) - (1-tmp0)*np.log(1-tmp0)
+        tmp1 = (1+np.sqrt(1-a*a))/2
+        tmp0 = a*a/(4*tmp1) #(1-sqrt(1-a*a))/2, avoid the cancellation just above the separable boundary
+        ret[ind0] = -tmp0*np.log(tmp0) - tmp1*np.log(tmp1)
     ret = ret.reshape(shape)
     return ret
 
@@ -296,8 +297,9 @@ def get_Isotropic_eof(dim:int, alpha:np.ndarray|float):
     ind0 = np.logical_and(F>1/dim, F<=(4*(dim-1)/(dim*dim)))
     if np.any(ind0):
         gamma = (np.sqrt(F[ind0])+np.sqrt((dim-1)*(1-F[ind0])))**2/dim
-        tmp0 = -gamma*np.log(gamma) - (1-gamma)*np.log(1-gamma)
-        tmp1 = (1-gamma)*np.log(dim-1)
+        gammac = (np.sqrt((dim-1)*F[ind0])-np.sqrt(1-F[ind0]))**2/dim #1-gamma, non-negative also just above the separable boundary
+        tmp0 = -scipy.special.xlogy(gamma, gamma) - scipy.special.xlogy(gammac, gammac)
+        tmp1 = gammac*np.log(dim-1)
         ret[ind0] = tmp0 + tmp1
     ind1 = F>(4*(dim-1)/(dim*dim))
     if np.any(ind1):
